@@ -9,6 +9,7 @@ require (
 	github.com/attestantio/go-builder-client v0.5.1
 	github.com/attestantio/go-eth2-client v0.21.11
 	github.com/aws/aws-sdk-go v1.55.5
+	github.com/google/uuid v1.6.0
 	github.com/holiman/uint256 v1.3.1
 	github.com/mitchellh/go-homedir v1.1.0
 	github.com/pkg/errors v0.9.1
@@ -73,7 +74,6 @@ require (
 	github.com/golang/groupcache v0.0.0-20210331224755-41bb18bfe9da // indirect
 	github.com/google/go-cmp v0.6.0 // indirect
 	github.com/google/s2a-go v0.1.8 // indirect
-	github.com/google/uuid v1.6.0 // indirect
 	github.com/googleapis/enterprise-certificate-proxy v0.3.4 // indirect
 	github.com/googleapis/gax-go/v2 v2.13.0 // indirect
 	github.com/gorilla/mux v1.8.1 // indirect
